@@ -122,12 +122,12 @@ func ParseUIntVal(buf []byte, offs int, pcl *PUIntBody) (int, ErrorHdr) {
 				pcl.soffs = i
 				pcl.UIVal = uint32(c - '0')
 			case clFound:
-				v := pcl.UIVal*10 + uint32(c-'0')
-				if pcl.UIVal > v {
+				v := uint64(pcl.UIVal)*10 + uint64(c-'0')
+				if v > uint64(^uint32(0)) {
 					// overflow
 					return i, ErrHdrNumTooBig
 				}
-				pcl.UIVal = v
+				pcl.UIVal = uint32(v)
 			case clEnd:
 				// error, stuff found after callid end (WS in callid ?)
 				return i, ErrHdrBadChar
